@@ -402,7 +402,10 @@ func (st *c11State) spawn(f []string) string {
 	go func() {
 		st.threads.Register(tn)
 		defer st.threads.Unregister()
-		st.done <- c11Done{th: tn, result: run()}
+		r := run()
+		if st.threads.Current() != "" { // not a leftover of an earlier case
+			st.done <- c11Done{th: tn, result: r}
+		}
 	}()
 	return st.await(t)
 }
@@ -591,6 +594,7 @@ func c11Run(in *bufio.Scanner, w *bufio.Writer) {
 		}
 		if f[0] == "case" {
 			st.endCase()
+			st.threads.NextEpoch()
 			st.dead = len(f) != 4
 			if !st.dead {
 				st.cfg = f[3]
